@@ -223,9 +223,11 @@ void async_program(const vf::opts &o, vf::report &R, uint64_t pn, vf::rng &r, co
         if ((mode == AM_CO_AWAIT || mode == AM_DETACH_AWAIT) && !driver_done.load(std::memory_order_acquire) && err.empty()) err = "driver coroutine did not finish";
     }
     X.open_gate();
-    if (mode == AM_POOL_RUN || mode == AM_POOL_RUN_LVALUE) { // the frame is destroyed by the pool thread right AFTER it resolved the future: give it time (monitor read, bounded)
-        uint64_t t0 = vf::rdtsc();
-        while (tracked::live.load() != live0 && vf::rdtsc() - t0 < 6000000000ull) std::this_thread::yield();
+    if ((mode == AM_POOL_RUN || mode == AM_POOL_RUN_LVALUE) && !stopped_pool) { // the frame is destroyed by the pool thread right AFTER it resolved the future: give it time (monitor read, bounded)
+        static std::atomic<int> timeouts{0}; // a tree that leaks frames would otherwise spend seconds per program here
+        uint64_t t0 = vf::rdtsc(), limit = timeouts.load(std::memory_order_relaxed) >= 3 ? 60000000ull : 6000000000ull;
+        while (tracked::live.load() != live0 && vf::rdtsc() - t0 < limit) std::this_thread::yield();
+        if (tracked::live.load() != live0) timeouts.fetch_add(1, std::memory_order_relaxed);
     }
     R.cases++;
     // ---------------- oracles
